@@ -29,13 +29,13 @@ import (
 )
 
 type codecTr struct {
-	sb    *strings.Builder
-	fn    string
-	kind  map[string]string // variable -> big | elem | bytes | words | int
-	pool  string            // name of the pooled variable (if any)
-	ret   string            // elem | optelem | bytes
-	named string            // named result
-	loopVar string          // inside a loop body: the only variable that may be assigned
+	sb      *strings.Builder
+	fn      string
+	kind    map[string]string // variable -> big | elem | bytes | words | int
+	pool    string            // name of the pooled variable (if any)
+	ret     string            // elem | optelem | bytes
+	named   string            // named result
+	loopVar string            // inside a loop body: the only variable that may be assigned
 }
 
 func (t *codecTr) die(format string, args ...interface{}) {
